@@ -274,7 +274,7 @@ def delta_analysis(fn, counters, discr=(), start_event=None, stop=None, maxstate
                     env[e['name']] = v
                 envk = _envkey(env)
         elif ev == 'leave':
-            if assume_dropped_success and e.get('ret_unused') and e.get('retvar'):
+            if assume_dropped_success and e.get('ret_unused') and e.get('retvar') and e.get('rettype') == 'int':
                 v = dict(envk).get(e['retvar'], '?')
                 if is_fail(v):
                     return None
